@@ -315,23 +315,36 @@ func dischargeAll(res *FuncResult, dir string, timeoutS, seed, par int, modelVar
 		}(o, file)
 	}
 	wg.Wait()
-	// second chance for undecided obligations: alone on the machine, three times the time limit
+	// second chance for undecided obligations: fewer at a time, three times the time limit
 	if !noRetry {
-		for idx, o := range res.Obls {
+		var wg2 sync.WaitGroup
+		sem2 := make(chan struct{}, 3)
+		n := 0
+		for _, o := range res.Obls {
 			if o.Status != "unknown" || o.Vacuity || !strings.HasSuffix(o.Detail, ".smt2") {
 				continue
 			}
-			_ = idx
-			r := solve(o.Detail, 3*timeoutS, seed+1)
-			o.Ms += r.ms
-			switch r.status {
-			case "unsat":
-				o.Status, o.Solver = "proved", r.solver+"(retry)"
-			case "sat":
-				o.Status, o.Solver = "failed", r.solver+"(retry)"
-				o.Model = parseModel(r.output)
+			n++
+			if n > 6 {
+				break // many undecided obligations: something systematic, do not burn time
 			}
+			wg2.Add(1)
+			sem2 <- struct{}{}
+			go func(o *Obligation) {
+				defer wg2.Done()
+				defer func() { <-sem2 }()
+				r := solve(o.Detail, 3*timeoutS, seed+1)
+				o.Ms += r.ms
+				switch r.status {
+				case "unsat":
+					o.Status, o.Solver = "proved", r.solver+"(retry)"
+				case "sat":
+					o.Status, o.Solver = "failed", r.solver+"(retry)"
+					o.Model = parseModel(r.output)
+				}
+			}(o)
 		}
+		wg2.Wait()
 	}
 }
 
